@@ -122,7 +122,7 @@ def run_case(tid, kind, nrec, variant, sig, chunk, rng, badhash=None, into_exist
             kind, variant = "file", 1
             rec["kind"] = kind
         what, size = make_payload(kind, nrec, variant, sdir, rng)
-        stale = kind == "file" and (tid % 2 == 0)
+        stale = kind == "file" and (tid % 2 == 0) and not into_existing      # (the stale file would lie outside the destination there)
         if stale:
             # history: an earlier transfer of this name into this directory was cut and left its temporary file behind
             with open(os.path.join(rdir, what + ".tmp"), "wb") as f:
